@@ -734,10 +734,7 @@ fn schedules_from_bdl(bdl: &Data, id_maps: &IdMaps) -> Result<SchedulesDb, Error
             bdl::Schedule::Week(sch) => {
                 let id = id_maps.schedule_week_id(&sch.name)?;
                 let values = match sch.days.len() {
-                    1 => vec![(
-                        id_maps.schedule_day_id(sch.days.first().unwrap()).unwrap(),
-                        7,
-                    )],
+                    1 => vec![(id_maps.schedule_day_id(sch.days.first().unwrap())?, 7)],
                     7 => {
                         let mut res = vec![];
                         let mut current_day_name = sch.days.first().unwrap();
@@ -785,12 +782,12 @@ fn schedules_from_bdl(bdl: &Data, id_maps: &IdMaps) -> Result<SchedulesDb, Error
                         && day_count.len() == sch.days.len()
                 );
 
-                let values = sch
+                let week_ids = sch
                     .weeks
                     .iter()
-                    .map(|name| id_maps.schedule_week_id(name).unwrap())
-                    .zip(day_count.into_iter())
-                    .collect();
+                    .map(|name| id_maps.schedule_week_id(name))
+                    .collect::<Result<Vec<_>, _>>()?;
+                let values = week_ids.into_iter().zip(day_count.into_iter()).collect();
 
                 year.push(Schedule {
                     id,
